@@ -327,12 +327,18 @@ def sampler_scope(mname, subname):
 
 
 def check(ctx):
-    n = rk.check_weighted_choices(ctx, "C03.weights", [RG])
-    ctx.floor("C03.weights", n, 4, "weighted random.choices sites in regions.py")
-    check_membership(ctx)
-    check_height(ctx)
-    check_rays(ctx)
-    check_cache(ctx)
-    check_precision(ctx)
-    n = rk.check_operand_interface(ctx, "C03.operand", scope=sampler_scope)
-    ctx.floor("C03.operand", n, 3, "operand attribute reads in sampler code")
+    def weights(ctx):
+        n = rk.check_weighted_choices(ctx, "C03.weights", [RG])
+        ctx.floor("C03.weights", n, 4, "weighted random.choices sites in regions.py")
+
+    def operand(ctx):
+        n = rk.check_operand_interface(ctx, "C03.operand", scope=sampler_scope)
+        ctx.floor("C03.operand", n, 3, "operand attribute reads in sampler code")
+
+    ctx.run(weights)
+    ctx.run(check_membership)
+    ctx.run(check_height)
+    ctx.run(check_rays)
+    ctx.run(check_cache)
+    ctx.run(check_precision)
+    ctx.run(operand)
